@@ -152,8 +152,9 @@ Definition wstep (w : wop) (s : state) : list rec * list N * list N :=
   | WPatch k st =>
       match lookup k (recs s) with
       | Some r => if ralive r
-                  then (replace k {| rk := k; rst := st; rgrp := rgrp r; rexp := rexp r; rg := rg r; ralive := true |} (recs s),
-                        slice s, cl s)
+                  then (* Save with the sticky expiry-changed flag re-inserts the index entry *)
+                       (replace k {| rk := k; rst := st; rgrp := rgrp r; rexp := rexp r; rg := rg r; ralive := true |} (recs s),
+                        (if Z.eqb (rexp r) 0 then rem k (slice s) else ins k (rem k (slice s))), rem k (cl s))
                   else (recs s, slice s, cl s)
       | None => (recs s, slice s, cl s)
       end
@@ -234,11 +235,12 @@ Definition step (c : cfg) (t : nat) (s : state) : option state :=
               if still_there c k g (recs s) then
                 let e := match nexp with Some e => e | None => rexp x end in
                 let x' := {| rk := k; rst := nst; rgrp := rgrp x; rexp := e; rg := rg x; ralive := true |} in
-                (* Save: an expiry change drops and re-adds the index entry; a record that is not
-                   in the main index is added as new *)
-                let changed := negb (Z.eqb e (rexp x)) || negb (ralive x) in
-                let sl := if changed then (if Z.eqb e 0 then rem k (slice s) else ins k (rem k (slice s))) else slice s in
-                let cl' := if changed then rem k (cl s) else cl s in
+                (* Save: the record's expiry-changed flag is sticky (set by the first SetExpirationTime
+                   and never reset), so every Save drops and re-adds the index entry, whether or not
+                   this patch touched the expiry; a record that is not in the main index is added as
+                   new.  Either way the key is (re-)inserted here unless it has no expiry. *)
+                let sl := if Z.eqb e 0 then rem k (slice s) else ins k (rem k (slice s)) in
+                let cl' := rem k (cl s) in
                 Some (mk s t (replace k x' (recs s)) sl cl'
                          (bad s ++ (if ralive x then [] else [4%N])) (PeSel sel r nst nexp) [(k, 0%N)])
               else Some (mk s t (recs s) (slice s) (cl s) (bad s) (PeSel sel r nst nexp) [(k, 2%N)])
